@@ -577,12 +577,18 @@ where
     pub fn put(&self, key: K, value: V) -> Result<Option<V>> {
         let hash = self.hash_key(&key);
         
+        // The node lock is held for the whole operation (lock order: nodes -> hash_map -> free_nodes),
+        // so the capacity check, the eviction and the allocation see one consistent state.
+        let mut nodes = self.nodes.write().map_err(|_| ZiporaError::out_of_memory(0))?;
+        
         // Check if key already exists
         {
-            let hash_map = self.hash_map.read().map_err(|_| ZiporaError::out_of_memory(0))?;
-            if let Some(&node_idx) = hash_map.get(&key) {
+            let existing = {
+                let hash_map = self.hash_map.read().map_err(|_| ZiporaError::out_of_memory(0))?;
+                hash_map.get(&key).copied()
+            };
+            if let Some(node_idx) = existing {
                 // Update existing entry
-                let mut nodes = self.nodes.write().map_err(|_| ZiporaError::out_of_memory(0))?;
                 if (node_idx as usize) < nodes.len() && nodes[node_idx as usize].is_valid {
                     let old_value = std::mem::replace(&mut nodes[node_idx as usize].value, value);
                     self.lru_list.move_to_head(&mut nodes, node_idx);
@@ -598,18 +604,15 @@ where
         
         // Check if we need to evict before allocating
         if self.lru_list.len() >= self.config.capacity {
-            self.evict_lru()?;
+            self.evict_lru(&mut nodes)?;
         }
         
         // Now allocate new entry (should have space after eviction)
         let node_idx = self.allocate_node()?;
         
         // Initialize new node
-        {
-            let mut nodes = self.nodes.write().map_err(|_| ZiporaError::out_of_memory(0))?;
-            nodes[node_idx as usize] = LruNode::new(key.clone(), value, hash);
-            self.lru_list.insert_head(&mut nodes, node_idx);
-        }
+        nodes[node_idx as usize] = LruNode::new(key.clone(), value, hash);
+        self.lru_list.insert_head(&mut nodes, node_idx);
         
         // Add to hash map
         {
@@ -680,8 +683,8 @@ where
     
     /// Clear all entries
     pub fn clear(&self) -> Result<()> {
-        let mut hash_map = self.hash_map.write().map_err(|_| ZiporaError::out_of_memory(0))?;
         let mut nodes = self.nodes.write().map_err(|_| ZiporaError::out_of_memory(0))?;
+        let mut hash_map = self.hash_map.write().map_err(|_| ZiporaError::out_of_memory(0))?;
         let mut free_nodes = self.free_nodes.lock().map_err(|_| ZiporaError::out_of_memory(0))?;
         
         hash_map.clear();
@@ -738,16 +741,14 @@ where
     }
     
     /// Evict the least recently used entry
-    fn evict_lru(&self) -> Result<()> {
+    fn evict_lru(&self, nodes: &mut [LruNode<K, V>]) -> Result<()> {
         let lru_node_idx = self.lru_list.get_lru_node();
         if lru_node_idx == INVALID_NODE {
             return Err(ZiporaError::out_of_memory(0).into());
         }
         
-        let mut nodes = self.nodes.write().map_err(|_| ZiporaError::out_of_memory(0))?;
-        
         // Check validity and get key/value for callback before mutations
-        if !(lru_node_idx as usize) < nodes.len() || !nodes[lru_node_idx as usize].is_valid {
+        if (lru_node_idx as usize) >= nodes.len() || !nodes[lru_node_idx as usize].is_valid {
             return Err(ZiporaError::out_of_memory(0).into());
         }
         
@@ -764,7 +765,7 @@ where
         }
         
         // Remove from LRU list
-        self.lru_list.remove(&mut nodes, lru_node_idx);
+        self.lru_list.remove(nodes, lru_node_idx);
         
         // Reset node and return to free list
         nodes[lru_node_idx as usize].reset();
